@@ -125,6 +125,6 @@ impl Out {
 }
 
 /// run a closure, mapping a panic to the string "panic"
-pub fn guarded<F: FnOnce() -> String + std::panic::UnwindSafe>(f: F) -> String {
-    match std::panic::catch_unwind(f) { Ok(s) => s, Err(_) => "panic".into() }
+pub fn guarded<F: FnOnce() -> String>(f: F) -> String {
+    match std::panic::catch_unwind(std::panic::AssertUnwindSafe(f)) { Ok(s) => s, Err(_) => "panic".into() }
 }
